@@ -71,7 +71,11 @@ LA_DEFAULT = dict(N=3, Sides='{"remote", "local"}', Fams='{"tcp", "unix"}',
                   LateStore='{}')
 LA_INVS = ['ListenersReleased', 'SocketsExact', 'NoLateListener',
            'ClosedOnce', 'CancelKeepsConnection']
-DEFAULTS = {'ListenAsync': LA_DEFAULT,
+MA_DEFAULT = dict(N=2, Resolver='{1, 2, 3}',
+                  Sides='{"local", "socks", "remote"}', MaxConn=2,
+                  LeakOnPartialBind='FALSE')
+MA_INVS = ['NoListenerLeft', 'AllAddresses', 'ServedIffOpen']
+DEFAULTS = {'ListenAddrs': MA_DEFAULT, 'ListenAsync': LA_DEFAULT,
             'Forward': FWD_DEFAULT, 'Socks': SOCKS_DEFAULT,
             'ForwardPerm': PERM_DEFAULT, 'Listeners': LSN_DEFAULT,
             'X11': X11_DEFAULT}
@@ -283,6 +287,31 @@ LA_REGRESSIONS += [
      ('cancel', 1), ('decide', 2, True), ('end', 'loss'), ('setup', 2),
      ('setup', 3)],
 ]
+
+# a listen host with several addresses: fixed schedules
+MAC = lambda side, n, port, busy=(): dict(side=side, n=n, port=port,
+                                          busy=list(busy))
+MA_REGRESSIONS = []
+for _side in ('local', 'socks', 'remote'):
+    for _port in ('fix', 'dyn'):
+        # all binds succeed: every address relays, every one is released
+        MA_REGRESSIONS.append(
+            [('listen', 1, MAC(_side, 3, _port)), ('connect', 1, 1),
+             ('connect', 1, 2), ('connect', 1, 3), ('close', 1),
+             ('connect', 1, 1), ('connect', 1, 3),
+             ('listen', 2, MAC(_side, 2, _port)), ('connect', 2, 2),
+             ('end', 'loss'), ('connect', 2, 1), ('connect', 2, 2)])
+        # a later bind fails: nothing may be left of the request
+        for _busy in ([2], [3], [2, 3]):
+            MA_REGRESSIONS.append(
+                [('listen', 1, MAC(_side, 3, _port, _busy)),
+                 ('connect', 1, 1)] +
+                ([('connect', 1, 2)] if 2 not in _busy else []) +
+                [('listen', 2, MAC(_side, 2, _port)), ('connect', 2, 1),
+                 ('end', ['cclose', 'sclose', 'loss'][len(MA_REGRESSIONS) % 3]),
+                 ('connect', 1, 1)])
+    MA_REGRESSIONS.append([('listen', 1, MAC(_side, 2, 'fix', [1])),
+                           ('connect', 1, 2), ('end', 'cclose')])
 
 # X11 forwarding: fixed schedules (model-free labels)
 XR, XA, XC = (lambda s, sc=False: ('request', s, sc)), \
@@ -521,6 +550,12 @@ def main(ctx):
                         expect='NeverOlderDynamic'))
         jobs.append(Job('listeners witness port in use', 'Listeners', {},
                         ['NeverFailedOpen'], expect='NeverFailedOpen'))
+    # a listen host with several addresses
+    jobs.append(Job('listen-addrs rules', 'ListenAddrs', {}, MA_INVS,
+                    view=False, workers=4))
+    jobs.append(Job('listen-addrs sensitivity LeakOnPartialBind', 'ListenAddrs',
+                    dict(LeakOnPartialBind='TRUE'), ['NoListenerLeft'],
+                    expect='NoListenerLeft', view=False))
     # asynchronous listener creation vs. connection end
     jobs.append(Job('listen-async required rules', 'ListenAsync', {}, LA_INVS,
                     view=False))
@@ -624,7 +659,10 @@ def main(ctx):
     asims = [Job('listen-async sim', 'ListenAsync',
                  dict(LateStore=late_store), simulate=40 if quick else 300,
                  depth=12, view=False)]
-    run_jobs(ctx, jobs + sims + wsims + lsims + xsims + asims, parallel=6)
+    msims = [Job('listen-addrs sim', 'ListenAddrs', dict(MaxConn=5),
+                 simulate=30 if quick else 300, depth=10, view=False)]
+    run_jobs(ctx, jobs + sims + wsims + lsims + xsims + asims + msims,
+             parallel=6)
     jobmap = {j.name: j for j in jobs + sims}
 
     phase('tlc')
@@ -915,6 +953,43 @@ def main(ctx):
         judge_la(r, {'kind': 'listen-async', 'labels': labels})
     ctx.traces_validated(nla)
     phase('listen-async')
+
+    # ---- 4f. a listen host that resolves to several addresses ---------------
+    def judge_ma(r, rp):
+        for clause, detail, cause in r['l1']:
+            finds.add('ListenAddrs', clause, cause,
+                      f'{detail}; schedule {" ".join(r["script"])}', rp,
+                      len(r['script']))
+        for e in r.get('loop_exceptions', []):
+            finds.add('ListenAddrs', 'Exception', e[:60],
+                      f'exception reached the event loop: {e}; schedule '
+                      f'{" ".join(r["script"])}', rp, len(r['script']))
+        if not r['l1'] and r.get('diverged'):
+            ctx.divergence(f'ListenAddrs: {r["diverged"]} schedule='
+                           f'{" ".join(r["script"])}')
+
+    nma = 0
+    seen_m = set()
+    for j in msims:
+        for tr in j.traces:
+            labels = [l for l, _ in tr]
+            key = json.dumps(labels, sort_keys=True)
+            if key in seen_m or len(labels) < 2:
+                continue
+            seen_m.add(key)
+            r = F.replay_listen_addrs(tr)
+            nma += 1
+            ctx.count(('listen-addrs', key))
+            if nma == 3:
+                ctx.sample({'module': 'ListenAddrs', 'schedule': r['script']})
+            judge_ma(r, {'kind': 'listen-addrs', 'labels': labels})
+    for labels in MA_REGRESSIONS:
+        r = F.replay_listen_addrs(labels)
+        nma += 1
+        ctx.count(('listen-addrs-regression', json.dumps(labels)))
+        judge_ma(r, {'kind': 'listen-addrs', 'labels': labels})
+    ctx.traces_validated(nma)
+    phase('listen-addrs')
 
     # ---- 4d. X11 forwarding ------------------------------------------------
     os.makedirs(tlc.WORK, exist_ok=True)
@@ -1334,6 +1409,10 @@ def replay_one(ctx, F, finds):
         r = F.record_natural(**args)
         for clause, detail in r['l1']:
             finds.add('ForwardTrace', clause, 'natural', detail, rp, 1)
+    elif kind == 'listen-addrs':
+        r = F.replay_listen_addrs([tuple(l) for l in rp['labels']])
+        for clause, detail, cause in r['l1']:
+            finds.add('ListenAddrs', clause, cause, detail, rp, 1)
     elif kind == 'listen-async':
         r = F.replay_listen_async([tuple(l) for l in rp['labels']])
         for clause, detail, cause in r['l1']:
